@@ -6,6 +6,7 @@ package main
 
 import (
 	"context"
+	"os"
 	"errors"
 	"fmt"
 	"strings"
@@ -19,10 +20,12 @@ import (
 	"github.com/brimdata/super/compiler/data"
 	"github.com/brimdata/super/order"
 	"github.com/brimdata/super/pkg/field"
+	"github.com/brimdata/super/pkg/storage"
 	"github.com/brimdata/super/runtime"
 	"github.com/brimdata/super/runtime/exec"
 	"github.com/brimdata/super/runtime/sam/expr"
 	"github.com/brimdata/super/runtime/sam/op/groupby"
+	"github.com/brimdata/super/runtime/sam/op/join"
 	"github.com/brimdata/super/zbuf"
 	"github.com/brimdata/super/zio"
 	"github.com/brimdata/super/zson"
@@ -115,6 +118,25 @@ type qopts struct {
 	Zctx     *zed.Context
 	WantDag  bool
 	DagNotes *[]string
+	// FileSort: the program reads `file` sources; for each path the declared sort keys of
+	// that source ("" = none), set on its dag.FileScan before optimization
+	FileSort map[string]string
+}
+
+// fileScans collects the file scans of a DAG.
+func fileScans(seq dag.Seq, out *[]*dag.FileScan) {
+	for _, op := range seq {
+		switch op := op.(type) {
+		case *dag.FileScan:
+			*out = append(*out, op)
+		case *dag.Fork:
+			for _, p := range op.Paths {
+				fileScans(p, out)
+			}
+		case *dag.Scope:
+			fileScans(op.Body, out)
+		}
+	}
 }
 
 var errNoSummarize = errors.New("no top-level summarize in the compiled plan")
@@ -130,9 +152,33 @@ func runQuery(o qopts) (out []zed.Value, err error) {
 		}
 		rctx := runtime.NewContext(ctx, o.Zctx)
 		defer rctx.Cancel()
-		job, err := compiler.NewJob(rctx, ast, data.NewSource(nil, nil), nil)
+		src := data.NewSource(nil, nil)
+		if o.FileSort != nil {
+			src = data.NewSource(storage.NewLocalEngine(), nil)
+		}
+		job, err := compiler.NewJob(rctx, ast, src, nil)
 		if err != nil {
 			return fmt.Errorf("newjob: %w", err)
+		}
+		if o.FileSort != nil {
+			var scans []*dag.FileScan
+			fileScans(job.Entry(), &scans)
+			n := 0
+			for _, fs := range scans {
+				if sk, ok := o.FileSort[fs.Path]; ok {
+					n++
+					if sk != "" {
+						keys, err := order.ParseSortKeys(sk)
+						if err != nil {
+							return err
+						}
+						fs.SortKeys = keys
+					}
+				}
+			}
+			if n != len(o.FileSort) {
+				return fmt.Errorf("found %d of %d file scans in the plan", n, len(o.FileSort))
+			}
 		}
 		if o.SortKey != "" {
 			scan, ok := job.DefaultScan()
@@ -165,6 +211,15 @@ func runQuery(o qopts) (out []zed.Value, err error) {
 			if o.PartIn {
 				for k := range sum.Keys {
 					sum.Keys[k].RHS = sum.Keys[k].LHS
+				}
+			}
+		}
+		if os.Getenv("C10_DEBUG") != "" {
+			for _, op := range job.Entry() {
+				if j, ok := op.(*dag.Join); ok {
+					fmt.Printf("JOIN style=%s leftDir=%v rightDir=%v\n", j.Style, j.LeftDir, j.RightDir)
+				} else {
+					fmt.Printf("OP %T\n", op)
 				}
 			}
 		}
@@ -242,4 +297,62 @@ func fieldOf(v zed.Value, name string) (typ, val string, isNull, ok bool) {
 		return "", "", false, false
 	}
 	return zson.String(f.Type()), zson.FormatValue(*f), f.IsNull(), true
+}
+
+
+// runJoinDirect builds the join operator itself over two separate readers, declaring each
+// side's direction independently ("" unknown, fasc up, fdesc down), and drains it.
+func runJoinDirect(zctx *zed.Context, style string, lv, rv []zed.Value, lmode, rmode string) (out []zed.Value, err error) {
+	e, panicked := Protect(func() error {
+		ctx, cancel := context.WithTimeout(context.Background(), 60*time.Second)
+		defer cancel()
+		rctx := runtime.NewContext(ctx, zctx)
+		defer rctx.Cancel()
+		dir := func(m string) order.Direction {
+			switch m {
+			case "fasc":
+				return order.Up
+			case "fdesc":
+				return order.Down
+			}
+			return order.Unknown
+		}
+		lp, err := (&batchReader{vals: lv}).NewScanner(ctx, nil)
+		if err != nil {
+			return err
+		}
+		rp, err := (&batchReader{vals: rv}).NewScanner(ctx, nil)
+		if err != nil {
+			return err
+		}
+		var lhs []*expr.Lval
+		var rhs []expr.Evaluator
+		if style != "anti" {
+			lhs = []*expr.Lval{expr.NewLval([]expr.LvalElem{&expr.StaticLvalElem{Name: "rr"}})}
+			rhs = []expr.Evaluator{expr.NewDottedExpr(zctx, field.Path{"r"})}
+		}
+		j, err := join.New(rctx, style == "anti", style == "inner", lp, rp,
+			expr.NewDottedExpr(zctx, field.Path{"a"}), expr.NewDottedExpr(zctx, field.Path{"b"}),
+			dir(lmode), dir(rmode), lhs, rhs, expr.Resetters{})
+		if err != nil {
+			return err
+		}
+		for {
+			b, err := j.Pull(false)
+			if err != nil {
+				return err
+			}
+			if b == nil {
+				return nil
+			}
+			for _, v := range b.Values() {
+				out = append(out, v.Copy())
+			}
+			b.Unref()
+		}
+	})
+	if panicked {
+		return out, fmt.Errorf("PANIC %w", e)
+	}
+	return out, e
 }
